@@ -328,6 +328,12 @@ Definition type_params_map (sd : sdecl) : list string :=
 Definition new_tparams (sd : sdecl) : list (string * string) :=
   mapi_aux (fun i t => (nth i (type_params_map sd) "", t)) 0 (type_params sd).
 
+(* TypeParamNameList and the result type *$TypeName of the template *)
+Definition new_tname_list (sd : sdecl) : string :=
+  String.concat ", " (map fst (new_tparams sd)).
+Definition new_result_type (sd : sdecl) : string :=
+  "*" ++ sd_name sd ++ match new_tparams sd with [] => "" | _ => "[" ++ new_tname_list sd ++ "]" end.
+
 Definition star_type (f : field) : string := (if f_ptr f then "*" else "") ++ f_qtype f.
 
 (* the loop of makeNew over g.fields *)
